@@ -1,5 +1,5 @@
 SPECIFICATION TraceSpec
-CONSTANT TolerateFpafPanic = TRUE
+CONSTANT TolerateFpafPanic = FALSE
 CONSTRAINT Progress
 POSTCONDITION Accepted
 CHECK_DEADLOCK FALSE
